@@ -74,6 +74,15 @@ def make_target(spec, D):
             x = np.asarray(x, dtype=float).ravel()
             return float(np.sum((np.log10(np.maximum(x, 1e-300)) - np.log10(c)) ** 2))
         return f
+    if fam == "ripple":            # smooth bowl + deterministic high-frequency ripple
+        m = np.array(spec["min"], dtype=float)
+        amp = float(spec.get("amp", 1.0))
+        freq = float(spec.get("freq", 37.0))
+
+        def f(x):
+            d = np.asarray(x, dtype=float).ravel() - m
+            return float(d @ d + amp * np.sum(np.sin(freq * d + np.arange(d.size))))
+        return f
     if fam == "linear":
         w = np.array(spec["w"], dtype=float)
 
